@@ -47,7 +47,7 @@ def load():
                     block[k] = v
                 continue
             if block is not None:
-                m = re.match(r"\s*(?:pub\s+)?fn\s+(\w+)\s*\(", ln)
+                m = re.match(r"\s*(?:pub\s+)?fn\s+(\w+)\s*\(", ln) or re.match(r"\s*\w+!\(\s*(\w+)\s*,", ln)
                 if m:
                     h = Harness(DEFAULTS)
                     h.update(filedefaults)
